@@ -1,8 +1,99 @@
-import Magog.Model.Eval
-import Magog.Model.Time
+import Magog.Model.MainLoop
 
-/-! Property C19 — theorems (see DESIGN §5). -/
+/-! Property C19 — the engine terminates on `quit` and on end of input.
+
+The theorems are about the read-loop model instantiated with the loop shape *extracted from main.go on
+this run*; they are stated for every command handler (`setsQuit` arbitrary except that it recognises
+`quit`), every finite input and any state of the rest of the engine — a running search does not appear
+because returning from `main` ends the process (run-time residue: process teardown is the OS's). -/
 
 namespace Magog.Props.C19
+open Magog Magog.Model
+
+theorem shape_checks : sourceLoopShape.checksScan = true ∧ sourceLoopShape.checksQuit = true := by decide
+
+theorem step_nil (sh : LoopShape) (h : sh.checksScan = true) (setsQuit : Bytes → Bool) (s : LoopState)
+    (hs : s.input = []) : loopStep sh setsQuit s = .exited s := by
+  unfold loopStep
+  by_cases hq : (sh.checksQuit && s.quit) = true <;> simp [hq, hs, h]
+
+theorem step_cons (sh : LoopShape) (setsQuit : Bytes → Bool) (s : LoopState) (l : Bytes) (rest : List Bytes)
+    (hs : s.input = l :: rest) :
+    loopStep sh setsQuit s = .exited s ∨
+    loopStep sh setsQuit s = .running { quit := s.quit || setsQuit l, input := rest, handled := l :: s.handled } := by
+  unfold loopStep
+  by_cases hq : (sh.checksQuit && s.quit) = true <;> simp [hq, hs]
+
+/-- general lemma: a loop that checks Scan's result exits after at most `input.length + 1` iterations -/
+theorem run_exits_of_checksScan (sh : LoopShape) (h : sh.checksScan = true) (setsQuit : Bytes → Bool) :
+    ∀ (s : LoopState), ∃ s', loopRun sh setsQuit (s.input.length + 1) s = .exited s' := by
+  intro s
+  generalize hn : s.input.length = n
+  induction n generalizing s with
+  | zero =>
+    have : s.input = [] := List.eq_nil_of_length_eq_zero hn
+    exact ⟨s, by simp [loopRun, step_nil sh h setsQuit s this]⟩
+  | succ n ih =>
+    match hs : s.input with
+    | [] => simp [hs] at hn
+    | l :: rest =>
+      have hlen : rest.length = n := by simpa [hs] using hn
+      rcases step_cons sh setsQuit s l rest hs with h1 | h1
+      · exact ⟨s, by simp [loopRun, h1]⟩
+      · obtain ⟨s', hs'⟩ := ih { quit := s.quit || setsQuit l, input := rest, handled := l :: s.handled } hlen
+        exact ⟨s', by rw [loopRun, h1]; exact hs'⟩
+
+/-- **EOF**: for every finite input, every handler and every initial flag, the process leaves the read
+    loop (and `main` returns) after finitely many iterations -/
+theorem C19_terminates_on_eof (setsQuit : Bytes → Bool) (lines : List Bytes) (q : Bool) :
+    ∃ n s', loopRun sourceLoopShape setsQuit n ⟨q, lines, []⟩ = .exited s' := by
+  obtain ⟨s', hs'⟩ := run_exits_of_checksScan sourceLoopShape shape_checks.1 setsQuit ⟨q, lines, []⟩
+  exact ⟨_, s', hs'⟩
+
+/-- **quit**: once the flag is set no further line is handled: the loop exits at the next condition test -/
+theorem C19_quit_is_prompt (setsQuit : Bytes → Bool) (s : LoopState) (hq : s.quit = true) :
+    loopStep sourceLoopShape setsQuit s = .exited s := by
+  simp [loopStep, shape_checks.2, hq]
+
+/-- **quit anywhere**: with `quit` as the k-th line, exactly the lines up to and including it are handled -/
+theorem C19_quit_stops_reading (setsQuit : Bytes → Bool) (hquit : setsQuit quitBytes = true)
+    (pre post : List Bytes) (hpre : ∀ l ∈ pre, setsQuit l = false) :
+    ∃ s', loopRun sourceLoopShape setsQuit (pre.length + 2) ⟨false, pre ++ quitBytes :: post, []⟩ = .exited s' ∧
+      s'.handled = quitBytes :: pre.reverse ∧ s'.input = post := by
+  suffices h : ∀ (pre : List Bytes) (hd : List Bytes), (∀ l ∈ pre, setsQuit l = false) →
+      ∃ s', loopRun sourceLoopShape setsQuit (pre.length + 2) ⟨false, pre ++ quitBytes :: post, hd⟩ = .exited s' ∧
+        s'.handled = quitBytes :: (pre.reverse ++ hd) ∧ s'.input = post by
+    simpa using h pre [] hpre
+  intro pre
+  induction pre with
+  | nil =>
+    intro hd _
+    refine ⟨⟨true, post, quitBytes :: hd⟩, ?_, by simp, rfl⟩
+    simp [loopRun, loopStep, shape_checks.2, hquit]
+  | cons l pre ih =>
+    intro hd hp
+    have hl : setsQuit l = false := hp l (by simp)
+    obtain ⟨s', h1, h2, h3⟩ := ih (l :: hd) (fun x hx => hp x (by simp [hx]))
+    refine ⟨s', ?_, by simpa using h2, h3⟩
+    simpa [loopRun, loopStep, shape_checks.2, hl] using h1
+
+/-- the *negation* for the loop shape the original tree had (Scan's result ignored): at EOF the loop runs
+    forever, handling empty lines — the defect repaired by the `fix:` commit for C19 -/
+theorem spins_if_scan_ignored (setsQuit : Bytes → Bool) (hq : setsQuit [] = false) (n : Nat) :
+    ∃ s', loopRun ⟨false, true⟩ setsQuit n ⟨false, [], []⟩ = .running s' ∧ s'.handled.length = n := by
+  suffices h : ∀ n (hd : List Bytes), ∃ s', loopRun ⟨false, true⟩ setsQuit n ⟨false, [], hd⟩ = .running s' ∧
+      s'.handled.length = n + hd.length by simpa using h n []
+  intro n
+  induction n with
+  | zero => intro hd; exact ⟨_, rfl, by simp⟩
+  | succ n ih =>
+    intro hd
+    obtain ⟨s', h1, h2⟩ := ih ([] :: hd)
+    refine ⟨s', ?_, by simp at h2; omega⟩
+    simpa [loopRun, loopStep, hq] using h1
+
+/-- non-vacuity: a concrete session -/
+example : loopRun sourceLoopShape (· == quitBytes) 3 ⟨false, [[105], quitBytes, [120]], []⟩ =
+    .exited ⟨true, [[120]], [quitBytes, [105]]⟩ := by rfl
 
 end Magog.Props.C19
